@@ -142,9 +142,20 @@ example : ntop6Text [0, 0, 0, 0, 0, 0, 0, 0, 0, 0, 0xff, 0xff, 1, 2, 3, 4]
 
 /-! ## inet_pton6 -/
 
-/-- soundness: whatever `inet_pton6` accepts is RFC 4291 text (grammar `Ipv6Text`) and the bytes
-    returned are the grammar's value (groups in order, zeros where "::" stood, quad bytes last) -/
-theorem pton6_accepts_sound (s v : List Nat) (h : pton6 s = some v) : Ipv6Text s v := pton6_sound s v h
+/-- `inet_pton6` accepts exactly the RFC 4291 text grammar `Ipv6Text` (forms x:x:x:x:x:x:x:x, "::"
+    compression, trailing dotted quad), and the bytes returned are the grammar's value (groups in order,
+    zeros where "::" stood, quad bytes last).  Soundness and completeness. -/
+theorem pton6_accepts_iff_spec (s v : List Nat) : pton6 s = some v ↔ Ipv6Text s v := pton6_iff s v
+
+/-- the accepted value is a function of the text (the grammar is unambiguous on values) -/
+theorem ipv6Text_value_unique (s v v' : List Nat) (h : Ipv6Text s v) (h' : Ipv6Text s v') : v = v' := by
+  have a := (pton6_iff s v).2 h
+  have b := (pton6_iff s v').2 h'
+  rw [a] at b; exact Option.some.inj b
+
+/-- an accepted value is exactly 16 bytes, each < 256 (what `memcpy(dst, tmp, 16)` stores) -/
+theorem pton6_value_bytes (s v : List Nat) (h : pton6 s = some v) : v.length = 16 ∧ ∀ b ∈ v, b < 256 :=
+  ipv6Text_value s v (pton6_sound s v h)
 
 /-- no accepted text is longer than 45 characters -/
 theorem pton6_accept_len (s v : List Nat) (h : pton6 s = some v) : s.length ≤ 45 := pton6_len s v h
@@ -155,6 +166,30 @@ example : pton6 [58, 58, 102, 102, 102, 102, 58, 49, 46, 50, 46, 51, 46, 52]
     = some [0, 0, 0, 0, 0, 0, 0, 0, 0, 0, 0xff, 0xff, 1, 2, 3, 4] := by decide                              -- "::ffff:1.2.3.4"
 example : pton6 [58, 49] = none := by decide                                                               -- ":1"
 example : pton6 [49, 58, 58, 50, 58, 58, 51] = none := by decide                                           -- "1::2::3"
+
+/-! ## inet_ntop6 ∘ inet_pton6 round trip
+
+  NOT proved in general.  Full statement kept visible as a `def`; what is proved instead:
+  * `ntop6_pton6_partial`: the round trip holds for every address whose printed text lies in the grammar with
+    that address as value (by completeness of `inet_pton6`); i.e. what is missing is exactly the lemma
+    "`inet_ntop6` prints a grammar text of its argument" (`Ipv6Text t src`), which needs the characterisation
+    of the best-zero-run scan and of the format loop;
+  * concrete instances of each kind of shape below (`example`s, evaluated by the kernel);
+  * the check (`checks/c18.py`) runs the round trip on the implementation and on the model for all 256
+    zero-word patterns x fill styles, the IPv4-embedded forms and random addresses.
+-/
+
+/-- full statement (unproved): printing then parsing any 16-byte address gives the address back -/
+def ntop6_pton6_full_statement : Prop :=
+  ∀ src : List Nat, src.length = 16 → (∀ b ∈ src, b < 256) →
+    ∃ t, ntop6Text src = .ok t ∧ pton6 t = some src
+
+theorem ntop6_pton6_partial (src t : List Nat) (ht : ntop6Text src = .ok t) (hg : Ipv6Text t src) :
+    pton6 t = some src ∧ ∀ t', pton6 t' = some src → Ipv6Text t' src :=
+  ⟨pton6_complete t src hg, fun t' h => pton6_sound t' src h⟩
+
+example : pton6 [50, 48, 48, 49, 58, 100, 98, 56, 58, 58, 49]
+    = some [0x20, 0x01, 0x0d, 0xb8, 0, 0, 0, 0, 0, 0, 0, 0, 0, 0, 0, 1] := by decide
 
 /-! ## %zone handling -/
 
